@@ -59,6 +59,11 @@ constexpr unsigned tag_kinds()
            | (sbepp::is_field_tag<Tag>::value ? 64u : 0u) | (sbepp::is_group_tag<Tag>::value ? 128u : 0u) | (sbepp::is_data_tag<Tag>::value ? 256u : 0u)
            | (sbepp::is_message_tag<Tag>::value ? 512u : 0u) | (sbepp::is_schema_tag<Tag>::value ? 1024u : 0u);
 }
+// 2: T is a view over const bytes, 1: over mutable bytes, 3: byte type not exposed
+template<typename T>
+auto view_code(int) -> std::integral_constant<int, std::is_const<sbepp::byte_type_t<typename std::remove_cv<typename std::remove_reference<T>::type>::type>>::value ? 2 : 1>;
+template<typename T>
+std::integral_constant<int, 3> view_code(long);
 template<typename T>
 using rmcvref_t = typename std::remove_cv<typename std::remove_reference<T>::type>::type;
 
